@@ -248,16 +248,7 @@ def main(chk, replay=None):
     proof_ok = chk.build_and_audit()
     # translator part: finite decision tables regenerated from the running code, theorems over them re-checked
     import gen_tables
-    gok, glog, gtable = gen_tables.generate_and_build()
-    gnames, gbad = gen_tables.audit_generated() if gok else ([], [])
-    chk.obligations += 10          # theorems of harness/templates/C02Tables.lean
-    chk.extra["generated_tables"] = dict(classify_entries=len(gtable["classify"]), strategies=len(gtable["strategies"]),
-                                         theorems=len(gnames), built=gok)
-    if not gok or gbad:
-        chk.broken_obligation("theorems over the result-type / strategy tables regenerated from the code no longer check",
-                              {"log_tail": glog[-1500:], "problems": gbad, "classify": gtable["classify"]})
-    else:
-        chk.discharged += len(gnames)
+    gen_tables.attach(chk, "C02Tables")
     quick = chk.tier == "quick"
     rng = chk.rng
     nprog = 25 if quick else 400
